@@ -15,8 +15,10 @@ STREAM_STATELESS = {"merkle": True, "addr": False}
 
 PROPS = {
     "C01": {
-        "module": ["GoatProofs.C01", "GoatProofs.C01S"],
+        "module": ["GoatProofs.C01", "GoatProofs.C01S", "GoatProofs.C01X"],
         "theorems": [
+            "Goat.C01X.signDoc_binds_explicit", "Goat.C01X.signDoc_binds_all_explicit", "Goat.C01X.signDoc_binds_chain_explicit",
+            "Goat.C01X.processWithdrawal_doc_binds_explicit", "Goat.C01X.replaceWithdrawal_doc_binds_explicit",
             "Goat.C01S.methods_prefix_free", "Goat.C01S.preimage_injective", "Goat.C01S.signDoc_binds_or_collision",
             "Goat.C01S.signDoc_binds_all_or_collision", "Goat.C01S.newBlocks_doc_binds_or_collision", "Goat.C01S.newPubkey_doc_binds_or_collision",
             "Goat.C01S.processWithdrawal_doc_binds_or_collision", "Goat.C01S.replaceWithdrawal_doc_binds_or_collision",
@@ -114,7 +116,7 @@ PROPS = {
                      "Goat.C03.C03_accept_implies", "Goat.C03.C03_value_exact", "Goat.C03.C03_coinbase_only_at_zero",
                      "Goat.C03.hasDeposited_iff", "Goat.C03.newDeposits_go_spec", "Goat.C03.C03_deposit_once"],
         "streams": [{"name": "bitcoin", "quick": 2500, "thorough": 30000, "seeds": 16}, {"name": "merkle", "quick": 3000, "thorough": 60000, "seeds": 8}],
-        "assumptions": ["double SHA-256 collision resistance enters only in the conclusion of the coinbase corollary (another transaction presented at a position exhibits a collision, C04.Collision64)",
+        "assumptions": ["double SHA-256 collision resistance enters only in the conclusion of the coinbase corollary (another transaction presented at a position exhibits a collision among the strings hashed by that very run, C04.RunCollision)",
                         "btcd DeserializeNoWitness is re-implemented in the model (BtcTx.parseNoWitness) and tied differentially",
                         "hash160 / taproot tweak values are stated by the harness (computed with btcd / x/crypto directly, independently of x/bitcoin/types)"],
     },
@@ -159,8 +161,8 @@ PROPS = {
         "assumptions": [],
     },
     "C02": {
-        "module": ["GoatProofs.C02", "GoatProofs.C01S"], "facts": True,
-        "theorems": ["Goat.C01S.signDoc_binds_or_collision", "Goat.C01S.signDoc_binds_all_or_collision", "Goat.C02.verify_then_consume", "Goat.C02.newBlockHashes_consumes", "Goat.C02.newConsolidation_consumes", "Goat.C02.newPubkey_consumes", "Goat.C02.processWithdrawal_consumes", "Goat.C02.replaceWithdrawal_consumes",
+        "module": ["GoatProofs.C02", "GoatProofs.C01S", "GoatProofs.C01X"], "facts": True,
+        "theorems": ["Goat.C01X.signDoc_binds_explicit", "Goat.C01X.signDoc_binds_chain_explicit", "Goat.C01S.signDoc_binds_or_collision", "Goat.C01S.signDoc_binds_all_or_collision", "Goat.C02.verify_then_consume", "Goat.C02.newBlockHashes_consumes", "Goat.C02.newConsolidation_consumes", "Goat.C02.newPubkey_consumes", "Goat.C02.processWithdrawal_consumes", "Goat.C02.replaceWithdrawal_consumes",
                      "Goat.C02.nonProposal_keeps_seq", "Goat.C02.acceptProposer_keeps_seq", "Goat.C02.endBlocker_keeps_seq", "Goat.C02.processRequest_keeps_seq",
                      "Goat.C02.accept_needs_current_seq", "Goat.C02.stale_vote_rejected", "Goat.C02.other_epoch_rejected", "Goat.C02.reach_seq_mono",
                      "Goat.C02.accepted_vote_never_again", "Goat.C02.code_writers_closed",
@@ -173,6 +175,7 @@ PROPS = {
     "C07": {
         "module": ["GoatProofs.C07", "GoatProofs.FactsThms"], "facts": True,
         "theorems": ["Goat.FactsThms.map_ranges_allowlisted", "Goat.FactsThms.nondeterminism_confined",
+                     "Goat.FactsThms.app_wiring_exact", "Goat.FactsThms.module_order_exact",
                      "Goat.C07.endBlocker_eq", "Goat.C07.rmState_comm", "Goat.C07.removal_loop_order_insensitive", "Goat.C07.leftovers_nodup",
                      "Goat.C07.endBlocker_removal_order_insensitive", "Goat.C07.endBlocker_any_two_orders", "Goat.C07.endBlocker_order_explicit",
                      "Goat.C07.aggregateLocks_eq", "Goat.C07.aggregateLocks_never_err", "Goat.C07.keys_aggregate_first_occurrence", "Goat.C07.keys_aggregate_nodup",
@@ -221,7 +224,7 @@ PROPS = {
         "module": "GoatProofs.C10", "facts": True,
         "theorems": ["Goat.C10.relayerTxOnly_ok", "Goat.C10.guardStep_ok", "Goat.C10.guard_exact", "Goat.C10.ethblock_never_in_mempool",
                      "Goat.C10.foreign_never_passes", "Goat.C10.registry_closed", "Goat.FactsThms.registry_known",
-                     "Goat.FactsThms.relayer_namespace_is_the_known_ten", "Goat.FactsThms.guard_is_second_decorator"],
+                     "Goat.FactsThms.relayer_namespace_is_the_known_ten", "Goat.FactsThms.guard_is_second_decorator", "Goat.FactsThms.app_wiring_exact"],
         "streams": [{"name": "app-guard", "quick": 900, "thorough": 6000, "seeds": 12}, {"name": "app-proposal-shared", "quick": 400, "thorough": 2500, "seeds": 6},
                     {"name": "app-proposal", "quick": 700, "thorough": 4000, "seeds": 6}],
         "assumptions": ["signature and account-sequence verification are cosmos-sdk's ante decorators (real code in the stream; facts stated to the model)",
@@ -261,14 +264,14 @@ PROPS = {
             "Goat.C04.C04_position_binding",
             "Goat.C04.C04_accepted_is_leaf",
             "Goat.C04.C04_same_position_same_leaf",
-            "Goat.C04.C04_position_binding_ideal",
+            "Goat.C04.RunCollision.collision64",
             "Goat.C04.collision64_exists",
             "Goat.C04.idealHash_unsatisfiable",
             "Goat.C04.F2_unchecked_accepts_alias",
         ],
         "streams": [{"name": "merkle", "quick": 4000, "thorough": 150000, "seeds": 16}, {"name": "bitcoin", "quick": 2500, "thorough": 20000, "seeds": 8}],
         "assumptions": [
-            "position binding (C04_position_binding) assumes only that the hash has 32-byte outputs and concludes 'the leaf at that position, or an explicit collision on two 64-byte inputs': the usual idealisation (injective on 64-byte inputs) is met by no function (C04I.idealHash_unsatisfiable), a theorem assuming it would be vacuous",
+            "position binding (C04_position_binding) assumes only that the hash has 32-byte outputs and concludes 'the leaf at that position, or a collision between one of the strings the verifier hashed and one of the strings the tree's producer hashed (RunCollision)': the usual idealisation (injective on 64-byte inputs) is met by no function (C04I.idealHash_unsatisfiable) so a theorem assuming it would be vacuous, and 'or some collision exists' is always true (C04I.collision64_exists) so a theorem concluding it would be empty",
             "the Go function is compared with the model on generated inputs only (differential), with real double SHA-256 on both sides",
         ],
     },
